@@ -317,6 +317,28 @@ def hdrErr : HdrForm → Option EClass
 
 /-! ## metadata -/
 
+/-- `processAddEntriesMetadata` after both checkpoints are in hand: the sanity checks, the resolution of
+the checkpoint the request proves against, the upload window -/
+def metaDecide (c : MCfg) (rid : Nat) (q : MetaReq) (pend mir : PCk) (next : Nat) (st2 : MState) : MState × Resp :=
+  if mir.ck.1 > pend.ck.1 then (st2, .err .internal) else
+  if mir.ck.1 > next then (st2, .err .internal) else
+  if next > pend.ck.1 then (st2, .err .internal) else
+  if q.stop < mir.ck.1 then conflict c 409 pend next st2 else
+  match resolve c st2.key pend mir q with
+  | none => conflict c 409 pend next st2
+  | some r =>
+    if q.start > next ∨ min q.stop next - q.start > window then
+      if next ≤ q.stop then conflict c 409 r next st2 else conflict c 409 pend next st2
+    else
+      (st2.setReq rid (some { ck := r.ck, payload := r.payload, start := q.start, stop := q.stop, i := 0, ov := [] }), .cont)
+
+/-- … after the pending checkpoint is in hand -/
+def metaMirror (c : MCfg) (rid : Nat) (q : MetaReq) (fm : Bool) (pend : PCk) (st1 : MState) : MState × Resp :=
+  if pend.payload = .empty then (st1, .err .noPending) else
+  match fetchMirror emptyHash fm st1 with
+  | (st2, none) => (st2, .err .internal)
+  | (st2, some (mir, next)) => metaDecide c rid q pend mir next st2
+
 /-- the header of `serveAddEntries` and `processAddEntriesMetadata` -/
 def metadata (c : MCfg) (rid : Nat) (q : MetaReq) (fp fm : Bool) (st : MState) : MState × Resp :=
   match hdrErr q.hdr with
@@ -328,22 +350,7 @@ def metadata (c : MCfg) (rid : Nat) (q : MetaReq) (fp fm : Bool) (st : MState) :
   if !c.mirrored then (st, .err .notMirrored) else
   match fetchPending emptyHash c fp st with
   | (st1, none) => (st1, .err .internal)
-  | (st1, some pend) =>
-    if pend.payload = .empty then (st1, .err .noPending) else
-    match fetchMirror emptyHash fm st1 with
-    | (st2, none) => (st2, .err .internal)
-    | (st2, some (mir, next)) =>
-      if mir.ck.1 > pend.ck.1 then (st2, .err .internal) else
-      if mir.ck.1 > next then (st2, .err .internal) else
-      if next > pend.ck.1 then (st2, .err .internal) else
-      if q.stop < mir.ck.1 then conflict c 409 pend next st2 else
-      match resolve c st2.key pend mir q with
-      | none => conflict c 409 pend next st2
-      | some r =>
-        if q.start > next ∨ min q.stop next - q.start > window then
-          if next ≤ q.stop then conflict c 409 r next st2 else conflict c 409 pend next st2
-        else
-          (st2.setReq rid (some { ck := r.ck, payload := r.payload, start := q.start, stop := q.stop, i := 0, ov := [] }), .cont)
+  | (st1, some pend) => metaMirror emptyHash c rid q fm pend st1
 
 /-! ## tiles -/
 
@@ -463,6 +470,26 @@ def conflictNext (c : MCfg) (r : Req) (fp : Bool) (st : MState) : MState × Resp
 
 /-! ## one package -/
 
+/-- the tile uploads of `processAddEntriesPackage` and the advance of `l.nextEntry` -/
+def pkgUpload (rid : Nat) (r : Req) (all : List Entry) (ov' : List Hash) (tileStart stop : Nat) (outs : List Fault)
+    (st0 : MState) : MState × Resp :=
+  match uploadTiles node emptyHash r.rs ov' all (newTiles tileStart stop) outs st0 with
+  | (st1, false) => (st1, .err .internal)
+  | (st1, true) =>
+    let nx := match st1.next with | some x => max x stop | none => stop
+    (({ st1 with next := some nx } : MState).setReq rid (some { r with i := r.i + 1, ov := ov' }), .cont)
+
+/-- `processAddEntriesPackage` for a package read completely from the body -/
+def pkgFull (rid : Nat) (r : Req) (xs : List Entry) (proof : List Hash) (fc : Bool) (outs : List Fault)
+    (tileStart stop : Nat) (st0 : MState) : MState × Resp :=
+  match complete st0 tileStart stop xs fc with
+  | none => (st0, .err .internal)
+  | some all =>
+    let ov' := r.ov ++ all.map leaf
+    let sh := Merkle.mth node emptyHash (all.map leaf)
+    if !Merkle.checkSubtree node proof.reverse r.ck.1 r.ck.2 tileStart stop sh then (st0, .err .invalidProof) else
+    pkgUpload node emptyHash rid r all ov' tileStart stop outs st0
+
 def pkgStep (c : MCfg) (rid : Nat) (inp : PkgIn) (fc fp : Bool) (outs : List Fault) (st : MState) : MState × Resp :=
   match st.reqs rid with
   | none => (st, .ignored)
@@ -477,17 +504,7 @@ def pkgStep (c : MCfg) (rid : Nat) (inp : PkgIn) (fc fp : Bool) (outs : List Fau
     | .many => (st0, .err .badRequest)
     | .full xs proof =>
       if xs.length ≠ stop - start then (st, .ignored) else
-      match complete st0 tileStart stop xs fc with
-      | none => (st0, .err .internal)
-      | some all =>
-        let ov' := r.ov ++ all.map leaf
-        let sh := Merkle.mth node emptyHash (all.map leaf)
-        if !Merkle.checkSubtree node proof.reverse r.ck.1 r.ck.2 tileStart stop sh then (st0, .err .invalidProof) else
-        match uploadTiles node emptyHash r.rs ov' all (newTiles tileStart stop) outs st0 with
-        | (st1, false) => (st1, .err .internal)
-        | (st1, true) =>
-          let nx := match st1.next with | some x => max x stop | none => stop
-          (({ st1 with next := some nx } : MState).setReq rid (some { r with i := r.i + 1, ov := ov' }), .cont)
+      pkgFull node emptyHash leaf rid r xs proof fc outs tileStart stop st0
 
 /-! ## the commit -/
 
@@ -508,6 +525,40 @@ def ensureCut (n next : Nat) (fh fw : Bool) (ud uh : Fault) (st : MState) : MSta
     | (st1, false) => (st1, false)
     | (st1, true) => putHash st1 0 (ts / 256) cutW (es.map leaf) uh
 
+/-- the end of `processAddEntriesCommit`: sign, `Lock.Replace(l.mirrorCheckpoint, signed)`, upload -/
+def commitRecord (r : Req) (rep up : Fault) (st2 : MState) : MState × Resp :=
+  let new : MVal := some (r.ck, st2.serial)
+  match st2.mcache with
+  | none => (st2, .err .internal)
+  | some v =>
+    let canApply := decide (v = st2.mlock)
+    let applied := canApply && rep.applied
+    let st3 : MState :=
+      { st2 with serial := st2.serial + 1,
+                 mlock := if applied then new else st2.mlock,
+                 mhist := if applied then st2.mhist ++ [r.ck] else st2.mhist,
+                 log := st2.log ++ [.mreplace applied r.ck] }
+    if !(canApply && rep.isOk) then ({ st3 with mcache := none }, .err .internal) else
+    let st4 : MState :=
+      { st3 with mcache := some new,
+                 mpub := if up.applied then some r.ck else st3.mpub,
+                 log := st3.log ++ [.mupload up.applied r.ck] }
+    if !up.isOk then (st4, .err .internal) else
+    ({ st4 with released := st4.released ++ [r.ck] }, .ok r.ck)
+
+/-- `processAddEntriesCommit` once the mirror checkpoint is in hand -/
+def commitDecide (c : MCfg) (r : Req) (fp fh fw : Bool) (ud uh rep up : Fault) (mir : PCk) (next : Nat)
+    (st1 : MState) : MState × Resp :=
+  if next < r.ck.1 then (st1, .err .internal) else
+  if r.ck.1 < mir.ck.1 then
+    match fetchPending emptyHash c fp st1 with
+    | (st2, none) => (st2, .err .internal)
+    | (st2, some p) => conflict c 409 p next st2
+  else
+  match ensureCut leaf r.ck.1 next fh fw ud uh st1 with
+  | (st2, false) => (st2, .err .internal)
+  | (st2, true) => commitRecord r rep up st2
+
 /-- `processAddEntriesCommit` -/
 def commitStep (c : MCfg) (rid : Nat) (fm fp fh fw : Bool) (ud uh rep up : Fault) (st : MState) : MState × Resp :=
   match st.reqs rid with
@@ -517,34 +568,7 @@ def commitStep (c : MCfg) (rid : Nat) (fm fp fh fw : Bool) (ud uh rep up : Fault
     let st0 := st.setReq rid none
     match fetchMirror emptyHash fm st0 with
     | (st1, none) => (st1, .err .internal)
-    | (st1, some (mir, next)) =>
-      if next < r.ck.1 then (st1, .err .internal) else
-      if r.ck.1 < mir.ck.1 then
-        match fetchPending emptyHash c fp st1 with
-        | (st2, none) => (st2, .err .internal)
-        | (st2, some p) => conflict c 409 p next st2
-      else
-      match ensureCut leaf r.ck.1 next fh fw ud uh st1 with
-      | (st2, false) => (st2, .err .internal)
-      | (st2, true) =>
-        let new : MVal := some (r.ck, st2.serial)
-        match st2.mcache with
-        | none => (st2, .err .internal)
-        | some v =>
-          let canApply := decide (v = st2.mlock)
-          let applied := canApply && rep.applied
-          let st3 : MState :=
-            { st2 with serial := st2.serial + 1,
-                       mlock := if applied then new else st2.mlock,
-                       mhist := if applied then st2.mhist ++ [r.ck] else st2.mhist,
-                       log := st2.log ++ [.mreplace applied r.ck] }
-          if !(canApply && rep.isOk) then ({ st3 with mcache := none }, .err .internal) else
-          let st4 : MState :=
-            { st3 with mcache := some new,
-                       mpub := if up.applied then some r.ck else st3.mpub,
-                       log := st3.log ++ [.mupload up.applied r.ck] }
-          if !up.isOk then (st4, .err .internal) else
-          ({ st4 with released := st4.released ++ [r.ck] }, .ok r.ck)
+    | (st1, some (mir, next)) => commitDecide emptyHash leaf c r fp fh fw ud uh rep up mir next st1
 
 /-! ## restart, add-checkpoint, the transition system -/
 
